@@ -14,12 +14,13 @@ type Violation struct {
 	Prop   string `json:"prop"`
 	Class  string `json:"class"`
 	Detail string `json:"detail"`
+	ReqIdx int    `json:"req_idx"`
 }
 
 func (v *Violation) String() string { return fmt.Sprintf("%s/%s: %s", v.Prop, v.Class, v.Detail) }
 
 func viol(prop, class, format string, a ...any) *Violation {
-	return &Violation{Prop: prop, Class: class, Detail: fmt.Sprintf(format, a...)}
+	return &Violation{Prop: prop, Class: class, Detail: fmt.Sprintf(format, a...), ReqIdx: -1}
 }
 
 func normSetSum(pkg *PkgDef, store string, v []byte) []byte {
